@@ -142,29 +142,30 @@ type finding struct {
 }
 
 type caseResult struct {
-	Calls        int            `json:"calls"`
-	PerFn        map[string]int `json:"per_fn"`
-	Outcome      map[string]int `json:"outcome"` // errno name / exit / trap kind
-	Buckets      map[string]int `json:"buckets"` // fn|bucket vector
-	Findings     []finding      `json:"findings,omitempty"`
-	MemChecks    int            `json:"mem_checks"`
-	MemWritten   int            `json:"mem_written"` // calls that modified memory (inside the allowed set)
-	ShadowChecks int            `json:"shadow_checks"`
-	ShadowProbes int            `json:"shadow_probes"`
-	FdsOpened    int            `json:"fds_opened"`
-	FdsClosed    int            `json:"fds_closed"`
-	FdsMoved     int            `json:"fds_moved"`
-	AllocChecks  int            `json:"alloc_checks"`
-	MaxAlloc     uint64         `json:"max_alloc"`
-	MaxAllocCall string         `json:"max_alloc_call,omitempty"`
-	MaxSys       uint64         `json:"max_sys"`
-	SysSuspects  int            `json:"sys_suspects,omitempty"`
-	Reinst       int            `json:"reinst"`
-	Structured   int            `json:"structured,omitempty"`  // calls with generator-built input arrays
-	BuildOpens   int            `json:"build_opens,omitempty"` // descriptors handed out during state build-ups (each judged)
-	Setup        string         `json:"setup,omitempty"`       // non-empty: set-up problem (inconclusive)
-	List         []callSpec     `json:"list,omitempty"`
-	Sample       string         `json:"sample,omitempty"`
+	Calls         int            `json:"calls"`
+	PerFn         map[string]int `json:"per_fn"`
+	Outcome       map[string]int `json:"outcome"` // errno name / exit / trap kind
+	Buckets       map[string]int `json:"buckets"` // fn|bucket vector
+	Findings      []finding      `json:"findings,omitempty"`
+	MemChecks     int            `json:"mem_checks"`
+	MemWritten    int            `json:"mem_written"` // calls that modified memory (inside the allowed set)
+	ShadowChecks  int            `json:"shadow_checks"`
+	ShadowProbes  int            `json:"shadow_probes"`
+	FdsOpened     int            `json:"fds_opened"`
+	FdsClosed     int            `json:"fds_closed"`
+	FdsMoved      int            `json:"fds_moved"`
+	AllocChecks   int            `json:"alloc_checks"`
+	MaxAlloc      uint64         `json:"max_alloc"`
+	MaxAllocCall  string         `json:"max_alloc_call,omitempty"`
+	MaxSys        uint64         `json:"max_sys"`
+	SysSuspects   int            `json:"sys_suspects,omitempty"`
+	Reinst        int            `json:"reinst"`
+	Structured    int            `json:"structured,omitempty"`     // calls with generator-built input arrays
+	CreatedJudged int            `json:"created_judged,omitempty"` // successful creating calls whose reported number was checked
+	BuildOpens    int            `json:"build_opens,omitempty"`    // descriptors handed out during state build-ups (each judged)
+	Setup         string         `json:"setup,omitempty"`          // non-empty: set-up problem (inconclusive)
+	List          []callSpec     `json:"list,omitempty"`
+	Sample        string         `json:"sample,omitempty"`
 }
 
 // ---------------------------------------------------------------------------
@@ -1039,6 +1040,16 @@ func (r *runner) shadowCheck(f *fnSpec, args []uint64, errno uint32, full bool) 
 	res.ShadowChecks++
 	var extra []int32
 	sameFd := false
+	// what a descriptor-creating call told the guest (read before the probes use their scratch area)
+	var created []int32
+	reported, reportable := uint32(0), false
+	if f.creates && errno == 0 {
+		for i, ro := range f.roles {
+			if ro.k == kPtrOut {
+				reported, reportable = in.mem.ReadUint32Le(uint32(args[i]))
+			}
+		}
+	}
 	if errno == 0 {
 		switch f.name {
 		case "fd_close":
@@ -1082,13 +1093,18 @@ func (r *runner) shadowCheck(f *fnSpec, args []uint64, errno uint32, full bool) 
 		case tracked && !present:
 			symptom = "gone"
 		case !tracked && present:
-			if f.creates {
-				// path_open / sock_accept hand out new descriptors
+			if f.creates && errno == 0 {
+				// a successful path_open / sock_accept hands out a new descriptor
 				in.shadow[fd] = got
 				res.FdsOpened++
+				created = append(created, fd)
 				continue
 			}
+			// nothing else may add a descriptor — in particular not a call that failed
 			symptom = "appeared"
+			if f.creates {
+				symptom = "added-by-failing-call-" + wasip1.ErrnoName(errno)
+			}
 		case !tracked:
 			continue
 		case got.StatErr != 0 && want.StatErr == 0:
@@ -1124,6 +1140,26 @@ func (r *runner) shadowCheck(f *fnSpec, args []uint64, errno uint32, full bool) 
 			in.shadow[fd] = got
 		} else {
 			delete(in.shadow, fd)
+		}
+	}
+	// a successful creating call must have told the guest the number of the
+	// descriptor it added: an entry the guest cannot know is a leak in the table
+	if len(created) > 0 {
+		res.CreatedJudged++
+		told := false
+		for _, fd := range created {
+			if reportable && uint32(fd) == reported {
+				told = true
+			}
+		}
+		if !reportable {
+			r.addFinding(f.name+":fdtable:new-descriptor-not-reported:result-pointer-out-of-range",
+				fmt.Sprintf("%s returned success and added descriptor(s) %v to the table, but the result pointer cannot hold 4 bytes, so nothing was written: the guest cannot know or close the descriptor; state %s, mount %s",
+					fmtArgs(f, pnames[f.name], args), created, stateNames[r.cs.State], mountNames[r.cs.Mount]), f, args, map[string]any{"added": created})
+		} else if !told {
+			r.addFinding(f.name+":fdtable:new-descriptor-not-reported:wrong-number",
+				fmt.Sprintf("%s returned success and added descriptor(s) %v to the table, but wrote %d to the result pointer; state %s, mount %s",
+					fmtArgs(f, pnames[f.name], args), created, reported, stateNames[r.cs.State], mountNames[r.cs.Mount]), f, args, map[string]any{"added": created, "reported": reported})
 		}
 	}
 }
